@@ -54,6 +54,16 @@ template<class V> void bad_bracket(V&& v, long const* idx, int depth) {  // vali
 }
 template<int D, class V, std::size_t... I> void call_all(V&& v, long const* idx, std::index_sequence<I...>) { touch(v(static_cast<multi::index>(idx[I])...)); }
 
+// call syntax with the out-of-range index at position `depth` and ranges / all in the other positions
+template<int D, class V> void call_mixed(V&& v, long const* idx, int depth, Model const& m) {
+	auto rg = [&](int k) { auto const& d = m.d[static_cast<std::size_t>(k)]; return multi::irange{static_cast<multi::index>(d.first), static_cast<multi::index>(d.first + d.size)}; };
+	auto ix = [&](int k) { return static_cast<multi::index>(idx[k]); };
+	if constexpr(D == 2) { if(depth == 0) { touch(v(ix(0), multi::_)); } else { touch(v(rg(0), ix(1))); } }
+	else if constexpr(D == 3) {
+		if(depth == 0) { touch(v(ix(0), multi::_, rg(2))); } else if(depth == 1) { touch(v(multi::_, ix(1), multi::_)); } else { touch(v(rg(0), multi::_, ix(2))); }
+	} else { (void)rg; touch(v(ix(0))); (void)depth; }
+}
+
 struct Fin {
 	int* root; long N; Ctx& ctx; Input const& in;
 	template<class V, class I>
@@ -73,7 +83,11 @@ struct Fin {
 		ctx.nontrivial = interp.applied >= 2;
 		switch(kind) {
 			case N_BRACKET: case N_BRACKET2: ctx.desc << " depth " << depth << " index " << idx[depth]; expect_assert(death_test([&] { bad_bracket(v, idx, depth); }), "chained index out of range"); break;
-			case N_CALL: case N_CALL2: ctx.desc << " position " << depth << " index " << idx[depth]; expect_assert(death_test([&] { call_all<D>(v, idx, std::make_index_sequence<static_cast<std::size_t>(D)>{}); }), "call-syntax index out of range"); break;
+			case N_CALL: case N_CALL2:
+				ctx.desc << " position " << depth << " index " << idx[depth];
+				if((a & 128U) != 0 && (D == 2 || D == 3)) { ctx.desc << " (ranges / all in the other positions)"; ctx.label("call_mixed_arguments"); expect_assert(death_test([&] { call_mixed<D>(v, idx, depth, m); }), "call-syntax index out of range next to range arguments"); }
+				else { expect_assert(death_test([&] { call_all<D>(v, idx, std::make_index_sequence<static_cast<std::size_t>(D)>{}); }), "call-syntax index out of range"); }
+				break;
 			case N_SLICED: {
 				auto const& d0 = m.d[0];
 				long lo = below ? d0.first - over : d0.first + static_cast<long>(a % static_cast<unsigned>(d0.size));
@@ -97,12 +111,21 @@ struct Fin {
 					src.v.assign(static_cast<std::size_t>(src.n()), 5);
 					ctx.desc << " source extents differ in dimension " << depth << " (" << m.d[static_cast<std::size_t>(depth)].size << " vs " << src.ext[static_cast<std::size_t>(depth)] << ")";
 					if(kind == N_ASSIGN_ARRAY) {
-						vp::ops::with_operand<D, int, true>(src, vp::ops::K_ARRAY, [&](auto& w) { expect_assert(death_test([&] { v = w; }), "view = array of different extents"); });
+						if((b & 128U) != 0) { ctx.desc << " (array<long>)"; vp::ops::with_operand<D, long, false>(src, vp::ops::K_ARRAY, [&](auto const& w) { expect_assert(death_test([&] { v = w; }), "view = array of another element type and different extents"); }); }
+						else { vp::ops::with_operand<D, int, true>(src, vp::ops::K_ARRAY, [&](auto& w) { expect_assert(death_test([&] { v = w; }), "view = array of different extents"); }); }
+					} else if(kind == N_ASSIGN_VIEW && ((b >> 3U) % 9U) >= 7U) {
+						// sources of another (convertible) element type go through their own assignment overloads
+						int sk = 2 + static_cast<int>(b % 5U);
+						ctx.desc << " (source view of long)";
+						vp::ops::with_operand<D, long, false>(src, sk, [&](auto const& w) {
+							if(((b >> 3U) % 9U) == 7U) { expect_assert(death_test([&] { v = w; }), "lvalue view = view of another element type and different extents"); }
+							else { expect_assert(death_test([&] { std::move(v) = w; }), "rvalue view = view of another element type and different extents"); }
+						});
 					} else {
 						int sk = 2 + static_cast<int>(b % 5U);
 						vp::ops::with_operand<D, int, true>(src, sk, [&](auto& w) {
 							if(kind == N_ASSIGN_VIEW) {
-								switch((b >> 3U) % 7U) {
+								switch((b >> 3U) % 9U) {
 									case 5: expect_assert(death_test([&] { v = std::as_const(w)(); }), "lvalue view = temporary read-only view of different extents"); break;
 									case 6: expect_assert(death_test([&] { std::move(v) = std::as_const(w)(); }), "rvalue view = temporary read-only view of different extents"); break;
 									case 0: expect_assert(death_test([&] { v = w; }), "lvalue view = view of different extents"); break;
